@@ -17,7 +17,7 @@ whose owner equals or is a label-wise strict subdomain of some question name (AS
 record whose owner equals a question name byte-exactly and matches is present; additional: only stored A/AAAA records owned by the target of an included SRV; id, \
 RESPONSE flag, unicast bit; None iff nothing matches). Universe U0 (exhaustive): 6 owner names that collide under label concatenation x {A, TXT, SRV} x {authoritative, \
 cached}; all stores of <= 3 (quick) / <= 4 (thorough) records x all queries of <= 2 questions over 6 names x {A,SRV,TXT,ANY} x {IN,ANY}. Universe U1 (random): histories \
-of add-authoritative/add-cached/remove/clear over colliding label alphabets, 9 record types, classes IN/CH, QTYPE incl. ANY/MAILB, each followed by queries. \
+of add-authoritative/add-cached/remove/clear over colliding label alphabets, 9 record types, classes IN/CH, QTYPE incl. ANY/MAILB, each followed by queries (one in five carrying records in its own sections). \
 Live family (sampled): 8 / 80 real services - sync and tokio SimpleMdnsResponder holding generated records, and sync and tokio ServiceDiscovery answering for their own instance (registered = PTR + InstanceInformation::into_records, \
 TXT strings compared as a set) - under names private to the process; 30 / 60 queries each go to the mDNS \
 group through real sockets; the reply datagram (unicast replies on the sending socket, multicast replies on a witness socket joined to the group) is parsed and judged by the same reply model, \
@@ -138,9 +138,28 @@ fn query_packet<'a>(qid: u16, qs: &'a [QSem]) -> Packet<'a> {
     p
 }
 
+/// A query that also carries records (known answers, as RFC 6762 7.1 queries do, or anything else a querier put into
+/// its sections): the reply is owed all the same.
+fn query_packet_with<'a>(qid: u16, qs: &'a [QSem], carried: &[(usize, RecSem)]) -> Packet<'a> {
+    let mut p = query_packet(qid, qs);
+    for (sec, rec) in carried {
+        let rr = bridge::lib_record(rec).expect("record in domain").into_owned();
+        match sec {
+            0 => p.answers.push(rr),
+            1 => p.name_servers.push(rr),
+            _ => p.additional_records.push(rr),
+        }
+    }
+    p
+}
+
 fn run_query(store: &ResourceRecordManager<'static>, qid: u16, qs: &[QSem]) -> Result<Option<(PktM, bool)>, monitor::PanicRec> {
+    run_query_with(store, qid, qs, &[])
+}
+
+fn run_query_with(store: &ResourceRecordManager<'static>, qid: u16, qs: &[QSem], carried: &[(usize, RecSem)]) -> Result<Option<(PktM, bool)>, monitor::PanicRec> {
     monitor::guard(|| {
-        let p = query_packet(qid, qs);
+        let p = query_packet_with(qid, qs, carried);
         build_reply(p, store).map(|(rp, uni)| {
             debug_assert!(rp.has_flags(PacketFlag::RESPONSE) || true);
             (bridge::observe(&rp), uni)
@@ -383,7 +402,16 @@ pub fn u1_case(ctx: &mut Ctx, idx: u64) {
                 let qid = r.int(16) as u16;
                 ctx.case(!members.is_empty(), sh ^ fnv(format!("{:?}", qs).as_bytes()));
                 let case = || json!({"family": "u1", "idx": idx, "history": log, "questions": qs.iter().map(|q| format!("{} qtype {} qclass {} unicast {}", name_text(&q.name), q.qtype, q.qclass, q.unicast)).collect::<Vec<_>>()});
-                match run_query(&store, qid, &qs) {
+                // one query in five carries records in its own sections (known answers and the like)
+                let mut carried: Vec<(usize, RecSem)> = Vec::new();
+                if r.chance(1, 5) {
+                    for _ in 0..r.usize(1, 2) {
+                        let rec = if !members.is_empty() && r.bool() { members[r.usize(0, members.len() - 1)].0.clone() } else { u1_record(&mut r, &names) };
+                        carried.push((*r.pick(&[0usize, 0, 1, 2]), rec));
+                    }
+                    ctx.count("u1_queries_carrying_records");
+                }
+                match run_query_with(&store, qid, &qs, &carried) {
                     Ok(reply) => judge(ctx, &model, &qs, qid, reply, &case),
                     Err(pn) => ctx.panic_violation("build_reply", &pn, case()),
                 }
@@ -569,7 +597,16 @@ fn live(ctx: &mut Ctx) {
             qid = qid.wrapping_add(1);
             let must = model.recs.iter().any(|(i, _)| qs.iter().any(|q| i.name == q.name && type_match(q.qtype, i.rtype) && class_match(q.qclass, i.class)));
             let may = model.recs.iter().any(|(i, _)| qs.iter().any(|q| under_ci(&i.name, &q.name) && type_match(q.qtype, i.rtype) && class_match(q.qclass, i.class)));
-            let bytes = query_packet(qid, &qs).build_bytes_vec().unwrap();
+            // one query in three carries records of its own: known answers (registered or not), authority or additional records
+            let mut carried: Vec<(usize, RecSem)> = Vec::new();
+            if r.chance(1, 3) {
+                for _ in 0..r.usize(1, 2) {
+                    let rec = if r.bool() { r.pick(&members).clone() } else { u1_record(&mut r, &names) };
+                    carried.push((*r.pick(&[0usize, 0, 0, 1, 2]), rec));
+                }
+                ctx.count("live_queries_carrying_records");
+            }
+            let bytes = query_packet_with(qid, &qs, &carried).build_bytes_vec().unwrap();
             ctx.case(true, fnv(&bytes) ^ fnv(format!("{:?}", model.recs).as_bytes()));
             ctx.count("live_queries_sent");
             let case = || json!({"family": "live", "idx": round, "responder": who, "history": history, "query": hex(&bytes),
